@@ -10,6 +10,7 @@ use crate::runner::{self, Kind, ProgRecord, RunCfg};
 use std::collections::HashSet;
 use Flavour::{Async as A, Sync as S};
 
+#[derive(Clone)]
 pub struct SeqSuite {
     /// breadth-first over the reference model's abstract states instead of all
     /// sequences: every (state, action) edge up to the depth is replayed once
@@ -89,6 +90,29 @@ fn graph_alphabet() -> Vec<Op> {
 }
 
 pub fn suites(check: &str, thorough: bool) -> (Vec<SeqSuite>, String) {
+    let (mut v, rule) = suites_inner(check, thorough);
+    if check == "C16" {
+        // the poll scripts once more with a payload without drop glue (the
+        // futures branch on needs_drop)
+        let extra: Vec<SeqSuite> = v
+            .iter()
+            .filter(|x| x.name == "c16-graph" || x.name == "c16-polls")
+            .map(|x| {
+                let mut y = x.clone();
+                y.class = Class::P;
+                y.name = if x.graph { "c16-graph-plain" } else { "c16-polls-plain" };
+                if !x.graph {
+                    y.depth -= 1;
+                }
+                y
+            })
+            .collect();
+        v.extend(extra);
+    }
+    (v, rule)
+}
+
+fn suites_inner(check: &str, thorough: bool) -> (Vec<SeqSuite>, String) {
     let caps4 = vec![Cap::B(0), Cap::B(1), Cap::B(2), Cap::Unbounded];
         match check {
         "C18" => {
@@ -139,6 +163,52 @@ pub fn suites(check: &str, thorough: bool) -> (Vec<SeqSuite>, String) {
                 class: Class::DP,
                 ctor: A,
                 observe: true,
+            });
+            // ... and with payloads that have no drop glue (plain data takes
+            // different branches in the futures and the timed calls)
+            v.push(SeqSuite {
+                graph: true,
+                name: "c18-graph-plain",
+                alphabet: graph_alphabet(),
+                depth: if thorough { 5 } else { 4 },
+                caps: vec![Cap::B(0), Cap::B(1), Cap::Unbounded],
+                flavours: vec![(A, A)],
+                class: Class::L,
+                ctor: A,
+                observe: true,
+            });
+            v.push(SeqSuite {
+                graph: true,
+                name: "c18-graph-plain",
+                alphabet: graph_alphabet(),
+                depth: if thorough { 5 } else { 4 },
+                caps: vec![Cap::B(1), Cap::B(2)],
+                flavours: vec![(A, A), (S, S)],
+                class: Class::P,
+                ctor: S,
+                observe: true,
+            });
+            // cancellation of either kind of future after the peer's side of the
+            // wait list changed (six calls)
+            v.push(SeqSuite {
+                graph: false,
+                name: "c18-cancel",
+                alphabet: vec![
+                    Op::FRecv(0),
+                    Op::Poll(0, 0),
+                    Op::FDrop(0),
+                    Op::FSend(1),
+                    Op::Poll(1, 0),
+                    Op::FDrop(1),
+                    Op::TrySend,
+                    Op::TryRecv,
+                ],
+                depth: if thorough { 7 } else { 6 },
+                caps: vec![Cap::B(0), Cap::B(1)],
+                flavours: vec![(A, A)],
+                class: Class::DP,
+                ctor: A,
+                observe: false,
             });
             // the refill of the buffer from a pending sender by an async receive
             // needs seven calls
